@@ -3,11 +3,12 @@ Dialects of C14 (LIST/LSUB name selection), model side + judge.
 
 Strings travel hex-encoded (UTF-8 bytes), `~` = empty string; lists are `,`-joined, `-` = empty list.
 
-  match <ref> <pattern> <del> <name>             -> ok <res> <0|1> | panic
-  match-baddelim …same…                          (stream with delimiters `\ * %`, invalid UTF-8 patterns)
+  match <ref> <pattern> <del> <name>             -> ok <res> <0|1>          (the implementation side prints `panic` if `match` panics)
+  match-small …same…                             (exhaustive small universe)
+  match-baddelim …same…                          (stream with delimiters `\ * %`, reference/pattern that is not valid UTF-8)
   superiors <del> <name>                         -> <list>
   inferiors <del> <parent> <names>               -> <list>
-  getmatches <ref> <pattern> <del> <lsub 0|1> <mboxes>   -> ok <name>=<att+att…>;… | ok - | panic
+  getmatches <ref> <pattern> <del> <lsub 0|1> <mboxes>   -> ok <name>=<att+att…>;… | ok -
       mboxes: <name>:<subscribed 0|1>:<ent 0|1>:<attr+attr…|-> joined by `;`
   judge-c14-match <match op words> => <impl answer>      -> ok trivial | ok nontrivial… | violation …
   judge-c14-getmatches <getmatches op words> => <impl answer>
@@ -81,13 +82,13 @@ def runMatch (args : List String) : String :=
       match Hex.decode ref, Hex.decode pat with
       | some r, some p =>
         (match matchName r p d n with
-        | .panic => "panic"
         | .ret res ok => s!"ok {Hex.encode res} {if ok then 1 else 0}")
       | _, _ =>
-        -- reference or pattern is not valid UTF-8: regexp.MustCompile rejects the expression
-        -- text (`invalid UTF-8`) unless the pattern is empty (matchRoot: not modelled)
+        -- reference or pattern is not valid UTF-8: regexp.Compile rejects the expression text
+        -- (`invalid UTF-8`) and `match` answers "", false — unless the pattern is empty
+        -- (matchRoot: not modelled)
         if pat == "~" then "unmodelled" else
-        if (Hex.decodeBytes ref).isSome && (Hex.decodeBytes pat).isSome then "panic" else "bad-op"
+        if (Hex.decodeBytes ref).isSome && (Hex.decodeBytes pat).isSome then "ok ~ 0" else "bad-op"
     | _, _ => "bad-op"
   | _ => "bad-op"
 
@@ -135,9 +136,7 @@ def runGetMatches (args : List String) : String :=
   | [ref, pat, del, lsub, mboxes] =>
     match Hex.decode ref, Hex.decode pat, delim? del, parseMBoxes mboxes with
     | some r, some p, some d, some all =>
-      (match getMatches all r p d (lsub == "1") with
-      | none => "panic"
-      | some m => s!"ok {showMatches m}")
+      s!"ok {showMatches (getMatches all r p d (lsub == "1"))}"
     | _, _, _, _ => "bad-op"
   | _ => "bad-op"
 
@@ -152,12 +151,13 @@ def judgeC14Match (args : List String) : String :=
   match args with
   | ref :: pat :: del :: name :: "=>" :: ans =>
     match ans with
-    | ["panic"] =>
-      let cause :=
-        if (Hex.decode ref).isNone || (Hex.decode pat).isNone then "invalid-utf8-pattern"
-        else if del == "5c" then "backslash-delimiter" else "unknown"
-      s!"violation panic-in-match cause={cause} delimiter={del}"
+    | ["panic"] => s!"violation panic-in-match delimiter={del}"     -- no input may make `match` panic
     | ["ok", res, flag] =>
+      -- a reference/pattern that is not valid UTF-8 cannot match any (valid UTF-8) mailbox name
+      if ((Hex.decode ref).isNone || (Hex.decode pat).isNone) && pat != "~" && (Hex.decode name).isSome then
+        (if res == "~" && flag == "0" then "ok nontrivial-invalid-utf8-nomatch"
+         else "violation invalid-utf8-pattern-matched")
+      else
       (match Hex.decode ref, Hex.decode pat, delim? del, Hex.decode name, Hex.decode res with
       | some r, some p, some d, some n, some rs =>
         if Spec.matchSpecB d r p n rs (flag == "1") then
@@ -166,12 +166,8 @@ def judgeC14Match (args : List String) : String :=
            else if hasWildcard (r ++ p) then "ok nontrivial-nomatch" else "ok trivial")
         else
           let cp := Spec.canon d (r ++ p)
-          -- the model has Go's "`.` does not match newline"; if it explains the answer, say so
           let explained := matchName r p d n == .ret rs (flag == "1")
-          let cause := if n.contains '\n' && explained then "newline-in-name"
-            else if canon d (r ++ p) != Spec.canon d (r ++ p) && explained then "inbox-in-later-segment"
-            else "unknown"
-          s!"violation match-differs-from-rfc3501 cause={cause} spec-whole-name-matches={Spec.wild d cp n} matching-levels={Hex.encodeList ((Spec.levels d n).filter (Spec.wild d cp))}"
+          s!"violation match-differs-from-rfc3501 model-agrees={explained} spec-whole-name-matches={Spec.wild d cp n} matching-levels={Hex.encodeList ((Spec.levels d n).filter (Spec.wild d cp))}"
       | _, _, _, _, _ => "violation unparsable-implementation-output")
     | _ => "violation unparsable-implementation-output"
   | _ => "bad-op"
@@ -190,7 +186,7 @@ def judgeC14GetMatches (args : List String) : String :=
   match args with
   | ref :: pat :: del :: lsub :: mboxes :: "=>" :: ans =>
     match ans with
-    | ["panic"] => s!"violation panic-in-getmatches cause={if del == "5c" then "backslash-delimiter" else "unknown"} delimiter={del}"
+    | ["panic"] => s!"violation panic-in-getmatches delimiter={del}"
     | ["ok", out] =>
       (match Hex.decode ref, Hex.decode pat, delim? del, parseMBoxes mboxes, parseMatchesOut out with
       | some r, some p, some d, some all, some got =>
@@ -214,11 +210,8 @@ def judgeC14GetMatches (args : List String) : String :=
           (if want.isEmpty then "ok nontrivial-empty"
            else if want.any (·.2) then "ok nontrivial-noselect" else "ok nontrivial")
         else
-          let explained := (getMatches all r p d lsub).map showMatches == some out
-          let cause := if all.any (·.name.contains '\n') && explained then "newline-in-name"
-            else if canon d (r ++ p) != Spec.canon d (r ++ p) && explained then "inbox-in-later-segment"
-            else "unknown"
-          s!"violation list-differs-from-rfc3501 cause={cause} want={",".intercalate (sortStr (want.map key))}"
+          let explained := showMatches (getMatches all r p d lsub) == out
+          s!"violation list-differs-from-rfc3501 model-agrees={explained} want={",".intercalate (sortStr (want.map key))}"
       | _, _, _, _, _ => "violation unparsable-implementation-output")
     | _ => "violation unparsable-implementation-output"
   | _ => "bad-op"
